@@ -207,3 +207,49 @@ func checkWriteErrorDiscipline(c *kit.Ctx, k *keyer, rule string) {
 	}
 	c.Floor(rule, "WriteAt sites examined for error discipline", n, 1)
 }
+
+// checkWriterRecordsError: in PieceWriter.Run, after Piece.Write the result is
+// delivered only once that call's error has been stored into
+// PieceWriter.Error on every path (no filtering of write errors).
+func checkWriterRecordsError(c *kit.Ctx, k *keyer, rule string) {
+	run := c.Func("internal/piecewriter", "(*PieceWriter).Run")
+	fError := c.Field("internal/piecewriter", "PieceWriter", "Error")
+	pieceWrite := c.FuncObj("internal/filesection", "Piece.Write")
+	isWrite := func(ins ssa.Instruction) bool {
+		_, isCall := ins.(*ssa.Call)
+		return isCall && kit.CallsAny(ins, pieceWrite)
+	}
+	fl := (&kit.Flow{P: c.Prog, Fn: run, Entry: true, Instr: func(ins ssa.Instruction, in bool) bool {
+		if isWrite(ins) {
+			return false
+		}
+		if v, ok := kit.StoresField(ins, fError); ok {
+			e := kit.Canon(v)
+			if e.Kind == "extract" && e.Idx == 1 && e.Args[0].IsCallTo(pieceWrite) {
+				return true
+			}
+		}
+		return in
+	}}).Solve()
+	n := 0
+	kit.Instrs(run, func(ins ssa.Instruction) {
+		deliver := false
+		switch x := ins.(type) {
+		case *ssa.Send:
+			deliver = true
+		case *ssa.Select:
+			for _, st := range x.States {
+				if st.Dir == types.SendOnly {
+					deliver = true
+				}
+			}
+		}
+		if !deliver {
+			return
+		}
+		n++
+		c.Check(fl.Before(ins), rule, k.key(run, "deliver with recorded write error"), posOf(ins),
+			"on every path from Piece.Write to the result delivery the write's error is stored into PieceWriter.Error", "the writer can deliver its result although the error of Piece.Write was not recorded on some path (a filtered / dropped write error makes a failed write look successful: bit set and persisted without the data on disk)")
+	})
+	c.Floor(rule, "result deliveries in PieceWriter.Run", n, 1)
+}
